@@ -39,21 +39,11 @@ def oracle(k, ops):
     return fails
 
 
-class TableVeto:
-    def __init__(self, rng):
-        self.bits = [rng.random() < 0.5 for _ in range(13)]
-        self.n = 0
-
-    def __call__(self, *a, **kw):
-        self.n += 1
-        return self.bits[self.n % 13]
-
-
 def zoo_oracle(rng, n):
     fails, cnt = [], 0
     for _ in range(n):
-        name = rng.choice(zoo.ALL_NAMES)
-        z, X, y, ops, mode, eps = zoo.gen_zoo_history(rng, name)
+        name = rng.choice(zoo.ALL_NAMES + zoo.NESTED_NAMES + ["DualVigilance", "Topo", "Fusion"])
+        z, X, y, ops, mode, eps = zoo.gen_zoo_history(rng, name, veto_ok=True)
         est = z["est"]
         cnt += 1
         for i, (op, ix) in enumerate(ops + [("predict", ops[-1][1])]):
@@ -66,7 +56,7 @@ def zoo_oracle(rng, n):
                         xs = zoo.take(X, ix)
                         est.predict(xs)
                 else:
-                    zoo.call(est, op, zoo.take(X, ix), None if y is None else np.asarray(y)[ix], mode, eps)
+                    zoo.call(est, op, zoo.take(X, ix), None if y is None else np.asarray(y)[ix], mode, eps, veto=z.get("veto"))
             except Exception:
                 break
             after = zoo.all_params(est)
@@ -89,7 +79,7 @@ def main():
                      "random histories of fit/partial_fit/predict calls with table reset functions forcing vetoes on every exit path "
                      "(resonance, new category, abandoned search under MT1), 5 modes x 4 epsilons; non-trivial = distinct history reaching >= 2 categories",
                      ["exceptions thrown by a user reset function mid-search are outside the property"])
-    zf, zn = zoo_oracle(C.make_rng(seed, "C07-zoo"), 150 if tier == "quick" else 1500)
+    zf, zn = zoo_oracle(C.make_rng(seed, "C07-zoo"), 400 if tier == "quick" else 4000)
     for f in zf:
         kf = C.match_known("C07", f["signature"])
         if kf is not None:
